@@ -561,11 +561,8 @@ impl Checker {
             }
             self.comp_set = set;
             if !good {
-                // capacity exception: the model failed with TooManyHeaders
-                if m.status() == St::Err(Kind::TooManyHeaders) {
-                    self.stats.completions_exempt += 1;
-                    return true;
-                }
+                // (no capacity exception here: capacity is judged when the surplus header line
+                // completes, and the model says it has — Partial at this point is not honest)
                 self.violation(
                     "Partial, but no member of the completion set makes it Complete".into(),
                     lane, input, describe_obs(o), format!("model: {:?}", m.status()), None,
